@@ -779,10 +779,7 @@ func loggerRules(c *core.Ctx, r *core.Report, rule string) {
 
 // runPhaseRules: the phases row of the start routine's table (configuration, factory preparation, refresh, runners).
 func runPhaseRules(c *core.Ctx, r *core.Report, rule string) {
-	ro := c.Roles()
-	subs := lowestReaching(c, "app",
-		func(com *ssa.CallCommon) bool { return core.IsInvoke(com, ro.FRefresh) },
-		func(com *ssa.CallCommon) bool { return core.IsInvoke(com, ro.RunnerRun) })
+	subs := startRoutines(c)
 	ar, appT := c.Named("definition", "ApplicationRunner"), c.Named("app", "App")
 	if !r.Exactly(rule, "start routines", len(subs), 1) || ar == nil || appT == nil {
 		return
